@@ -210,9 +210,12 @@ def evaluate(env, c):
         if not res.clean:
             raise Failure("[%s] history crashed or hung" % variant, {"result": res.describe()}, key="crash")
         T = res.of("T")
-        h = [int(t.f[10]) for t in T[-3:]]     # heap after return of the three identical trailing calls
-        if len(h) == 3 and not (h[1] == h[2]):
-            raise Failure("[%s] live heap grows between identical consecutive calls" % variant, {"heap_after_calls": h}, key="growth")
+        for t in T[-2:]:
+            # harness-independent readings inside one call: before the call / at real-exec entry / end of hook / after return
+            h0, h1, h1b, h2 = (int(t.f[k]) for k in (7, 8, 9, 10))
+            if h1 != h0 or h2 != h1b:
+                raise Failure("[%s] the library retains heap memory in a repeated call at the end of the history" % variant,
+                              {"heap_before": h0, "at_real_exec": h1, "after_hook": h1b, "after_return": h2}, key="growth")
 
 
 def short(v):
@@ -267,7 +270,7 @@ def main():
     builds = {b["name"]: b for b in bs}
     ctx.assumptions = ["formats use data sources whose value is identical in the history process and in a fresh child of the same "
                        "driver (everything except pid, tid, tid_kernel, timestamp*, datetime); the pid in the devlog prefix is normalised",
-                       "heap equality is checked between the 2nd and 3rd of three identical trailing calls (plain -O2 builds, mallinfo2)"]
+                       "heap: in the last two of three identical trailing calls the library must hold nothing at real-exec entry and after return (plain -O2 builds, mallinfo2, tcache off)"]
     nw, per = (4, 150) if ctx.quick else (16, 1500)
     pbt.run(ctx, builds, strategy, evaluate, classify, nw, per, sample=sample)
     ctx.finish()
